@@ -16,6 +16,7 @@ var (
 	verifMu      sync.Mutex
 	verifReaders []*bufio.Reader
 	verifPattern []byte
+	verifZeros   = make([]byte, 64*1024)
 )
 
 func verifApply(r *bufio.Reader, pattern []byte) {
@@ -53,7 +54,7 @@ func VerifSetResidue(pattern []byte) {
 
 // VerifPristine zeroes the internal buffers (process-start state).
 func VerifPristine() {
-	VerifSetResidue(make([]byte, 64*1024))
+	VerifSetResidue(verifZeros)
 	verifMu.Lock()
 	verifPattern = nil
 	verifMu.Unlock()
